@@ -1,0 +1,379 @@
+// SPDX-License-Identifier: Apache-2.0
+//! Verification-only container model (feature `echo_verif_flat`).
+//!
+//! `std`'s B-tree is environment, not Echo logic, and its node-splitting pointer
+//! structure is out of reach for a bounded model checker. Under this feature the
+//! ordered maps/sets held by the scheduler, footprints, footprint guard, graph
+//! store and warp state are replaced by a sorted `Vec` with linear search that
+//! honours the same documented contract: unique keys, ascending-key iteration,
+//! `insert` returns the previous value, set semantics for [`BTreeSet`].
+//!
+//! Nothing in this file is compiled unless the feature is enabled.
+#![allow(missing_docs, clippy::all, clippy::pedantic, clippy::nursery)]
+
+use core::borrow::Borrow;
+use core::cmp::Ordering;
+
+/// Sorted-`Vec` stand-in for `std::collections::BTreeMap`.
+#[derive(Debug, Clone, PartialEq, Eq, PartialOrd, Ord, Hash)]
+pub struct BTreeMap<K, V> {
+    items: Vec<(K, V)>,
+}
+
+impl<K, V> Default for BTreeMap<K, V> {
+    fn default() -> Self {
+        Self { items: Vec::new() }
+    }
+}
+
+/// Occupied-or-vacant handle returned by [`BTreeMap::entry`].
+pub struct Entry<'a, K, V> {
+    map: &'a mut BTreeMap<K, V>,
+    key: K,
+    pos: Result<usize, usize>,
+}
+
+impl<'a, K: Ord, V> Entry<'a, K, V> {
+    pub fn or_insert_with<F: FnOnce() -> V>(self, f: F) -> &'a mut V {
+        match self.pos {
+            Ok(i) => &mut self.map.items[i].1,
+            Err(i) => {
+                self.map.items.insert(i, (self.key, f()));
+                &mut self.map.items[i].1
+            }
+        }
+    }
+    pub fn or_insert(self, v: V) -> &'a mut V {
+        self.or_insert_with(|| v)
+    }
+    pub fn or_default(self) -> &'a mut V
+    where
+        V: Default,
+    {
+        self.or_insert_with(V::default)
+    }
+    pub fn and_modify<F: FnOnce(&mut V)>(self, f: F) -> Self {
+        if let Ok(i) = self.pos {
+            f(&mut self.map.items[i].1);
+        }
+        self
+    }
+}
+
+impl<K, V> BTreeMap<K, V> {
+    pub const fn new() -> Self {
+        Self { items: Vec::new() }
+    }
+    pub fn len(&self) -> usize {
+        self.items.len()
+    }
+    pub fn is_empty(&self) -> bool {
+        self.items.is_empty()
+    }
+    pub fn clear(&mut self) {
+        self.items.clear();
+    }
+    pub fn iter(&self) -> impl DoubleEndedIterator<Item = (&K, &V)> + ExactSizeIterator + Clone {
+        self.items.iter().map(|(k, v)| (k, v))
+    }
+    pub fn iter_mut(&mut self) -> impl DoubleEndedIterator<Item = (&K, &mut V)> {
+        self.items.iter_mut().map(|(k, v)| (&*k, v))
+    }
+    pub fn keys(&self) -> impl DoubleEndedIterator<Item = &K> + ExactSizeIterator + Clone {
+        self.items.iter().map(|(k, _)| k)
+    }
+    pub fn values(&self) -> impl DoubleEndedIterator<Item = &V> + ExactSizeIterator + Clone {
+        self.items.iter().map(|(_, v)| v)
+    }
+    pub fn values_mut(&mut self) -> impl DoubleEndedIterator<Item = &mut V> {
+        self.items.iter_mut().map(|(_, v)| v)
+    }
+    pub fn into_values(self) -> impl DoubleEndedIterator<Item = V> {
+        self.items.into_iter().map(|(_, v)| v)
+    }
+    pub fn into_keys(self) -> impl DoubleEndedIterator<Item = K> {
+        self.items.into_iter().map(|(k, _)| k)
+    }
+    pub fn first_key_value(&self) -> Option<(&K, &V)> {
+        self.items.first().map(|(k, v)| (k, v))
+    }
+    pub fn last_key_value(&self) -> Option<(&K, &V)> {
+        self.items.last().map(|(k, v)| (k, v))
+    }
+}
+
+impl<K: Ord, V> BTreeMap<K, V> {
+    /// `Ok(i)` when `items[i].0 == key`, otherwise `Err(i)` with the insertion point.
+    fn find<Q>(&self, key: &Q) -> Result<usize, usize>
+    where
+        K: Borrow<Q>,
+        Q: Ord + ?Sized,
+    {
+        let mut i = 0;
+        while i < self.items.len() {
+            match self.items[i].0.borrow().cmp(key) {
+                Ordering::Less => i += 1,
+                Ordering::Equal => return Ok(i),
+                Ordering::Greater => return Err(i),
+            }
+        }
+        Err(i)
+    }
+    pub fn get<Q>(&self, key: &Q) -> Option<&V>
+    where
+        K: Borrow<Q>,
+        Q: Ord + ?Sized,
+    {
+        match self.find(key) {
+            Ok(i) => Some(&self.items[i].1),
+            Err(_) => None,
+        }
+    }
+    pub fn get_mut<Q>(&mut self, key: &Q) -> Option<&mut V>
+    where
+        K: Borrow<Q>,
+        Q: Ord + ?Sized,
+    {
+        match self.find(key) {
+            Ok(i) => Some(&mut self.items[i].1),
+            Err(_) => None,
+        }
+    }
+    pub fn get_key_value<Q>(&self, key: &Q) -> Option<(&K, &V)>
+    where
+        K: Borrow<Q>,
+        Q: Ord + ?Sized,
+    {
+        match self.find(key) {
+            Ok(i) => Some((&self.items[i].0, &self.items[i].1)),
+            Err(_) => None,
+        }
+    }
+    pub fn contains_key<Q>(&self, key: &Q) -> bool
+    where
+        K: Borrow<Q>,
+        Q: Ord + ?Sized,
+    {
+        self.find(key).is_ok()
+    }
+    pub fn insert(&mut self, key: K, value: V) -> Option<V> {
+        match self.find(&key) {
+            Ok(i) => Some(core::mem::replace(&mut self.items[i].1, value)),
+            Err(i) => {
+                self.items.insert(i, (key, value));
+                None
+            }
+        }
+    }
+    pub fn remove<Q>(&mut self, key: &Q) -> Option<V>
+    where
+        K: Borrow<Q>,
+        Q: Ord + ?Sized,
+    {
+        match self.find(key) {
+            Ok(i) => Some(self.items.remove(i).1),
+            Err(_) => None,
+        }
+    }
+    pub fn entry(&mut self, key: K) -> Entry<'_, K, V> {
+        let pos = self.find(&key);
+        Entry { map: self, key, pos }
+    }
+    pub fn retain<F: FnMut(&K, &mut V) -> bool>(&mut self, mut f: F) {
+        self.items.retain_mut(|(k, v)| f(k, v));
+    }
+    pub fn extend<I: IntoIterator<Item = (K, V)>>(&mut self, iter: I) {
+        for (k, v) in iter {
+            self.insert(k, v);
+        }
+    }
+}
+
+impl<K: Ord, V> FromIterator<(K, V)> for BTreeMap<K, V> {
+    fn from_iter<I: IntoIterator<Item = (K, V)>>(iter: I) -> Self {
+        let mut m = Self::new();
+        m.extend(iter);
+        m
+    }
+}
+
+impl<K: Ord, V> Extend<(K, V)> for BTreeMap<K, V> {
+    fn extend<I: IntoIterator<Item = (K, V)>>(&mut self, iter: I) {
+        BTreeMap::extend(self, iter);
+    }
+}
+
+impl<'a, K, V> IntoIterator for &'a BTreeMap<K, V> {
+    type Item = (&'a K, &'a V);
+    type IntoIter = core::iter::Map<core::slice::Iter<'a, (K, V)>, fn(&'a (K, V)) -> (&'a K, &'a V)>;
+    fn into_iter(self) -> Self::IntoIter {
+        fn split<K, V>(e: &(K, V)) -> (&K, &V) {
+            (&e.0, &e.1)
+        }
+        self.items.iter().map(split::<K, V> as fn(&'a (K, V)) -> (&'a K, &'a V))
+    }
+}
+
+impl<K, V> IntoIterator for BTreeMap<K, V> {
+    type Item = (K, V);
+    type IntoIter = std::vec::IntoIter<(K, V)>;
+    fn into_iter(self) -> Self::IntoIter {
+        self.items.into_iter()
+    }
+}
+
+impl<K: Ord, Q: Ord + ?Sized, V> core::ops::Index<&Q> for BTreeMap<K, V>
+where
+    K: Borrow<Q>,
+{
+    type Output = V;
+    fn index(&self, key: &Q) -> &V {
+        match self.get(key) {
+            Some(v) => v,
+            None => panic!("no entry found for key"),
+        }
+    }
+}
+
+/// Sorted-`Vec` stand-in for `std::collections::BTreeSet`.
+#[derive(Debug, Clone, PartialEq, Eq, PartialOrd, Ord, Hash)]
+pub struct BTreeSet<T> {
+    items: Vec<T>,
+}
+
+impl<T> Default for BTreeSet<T> {
+    fn default() -> Self {
+        Self { items: Vec::new() }
+    }
+}
+
+impl<T> BTreeSet<T> {
+    pub const fn new() -> Self {
+        Self { items: Vec::new() }
+    }
+    pub fn len(&self) -> usize {
+        self.items.len()
+    }
+    pub fn is_empty(&self) -> bool {
+        self.items.is_empty()
+    }
+    pub fn clear(&mut self) {
+        self.items.clear();
+    }
+    pub fn iter(&self) -> core::slice::Iter<'_, T> {
+        self.items.iter()
+    }
+    pub fn first(&self) -> Option<&T> {
+        self.items.first()
+    }
+    pub fn last(&self) -> Option<&T> {
+        self.items.last()
+    }
+}
+
+impl<T: Ord> BTreeSet<T> {
+    fn find<Q>(&self, key: &Q) -> Result<usize, usize>
+    where
+        T: Borrow<Q>,
+        Q: Ord + ?Sized,
+    {
+        let mut i = 0;
+        while i < self.items.len() {
+            match self.items[i].borrow().cmp(key) {
+                Ordering::Less => i += 1,
+                Ordering::Equal => return Ok(i),
+                Ordering::Greater => return Err(i),
+            }
+        }
+        Err(i)
+    }
+    pub fn contains<Q>(&self, key: &Q) -> bool
+    where
+        T: Borrow<Q>,
+        Q: Ord + ?Sized,
+    {
+        self.find(key).is_ok()
+    }
+    pub fn insert(&mut self, value: T) -> bool {
+        match self.find(&value) {
+            Ok(_) => false,
+            Err(i) => {
+                self.items.insert(i, value);
+                true
+            }
+        }
+    }
+    pub fn remove<Q>(&mut self, key: &Q) -> bool
+    where
+        T: Borrow<Q>,
+        Q: Ord + ?Sized,
+    {
+        match self.find(key) {
+            Ok(i) => {
+                self.items.remove(i);
+                true
+            }
+            Err(_) => false,
+        }
+    }
+    pub fn is_subset(&self, other: &Self) -> bool {
+        self.items.iter().all(|x| other.contains(x))
+    }
+    pub fn is_disjoint(&self, other: &Self) -> bool {
+        !self.items.iter().any(|x| other.contains(x))
+    }
+    pub fn retain<F: FnMut(&T) -> bool>(&mut self, f: F) {
+        self.items.retain(f);
+    }
+    pub fn extend<I: IntoIterator<Item = T>>(&mut self, iter: I) {
+        for x in iter {
+            self.insert(x);
+        }
+    }
+    pub fn union<'a>(&'a self, other: &'a Self) -> impl Iterator<Item = &'a T> {
+        let mut out: Vec<&'a T> = self.items.iter().collect();
+        for x in &other.items {
+            if !self.contains(x) {
+                out.push(x);
+            }
+        }
+        out.sort();
+        out.into_iter()
+    }
+    pub fn intersection<'a>(&'a self, other: &'a Self) -> impl Iterator<Item = &'a T> {
+        self.items.iter().filter(move |x| other.contains(*x))
+    }
+    pub fn difference<'a>(&'a self, other: &'a Self) -> impl Iterator<Item = &'a T> {
+        self.items.iter().filter(move |x| !other.contains(*x))
+    }
+}
+
+impl<T: Ord> FromIterator<T> for BTreeSet<T> {
+    fn from_iter<I: IntoIterator<Item = T>>(iter: I) -> Self {
+        let mut s = Self::new();
+        s.extend(iter);
+        s
+    }
+}
+
+impl<T: Ord> Extend<T> for BTreeSet<T> {
+    fn extend<I: IntoIterator<Item = T>>(&mut self, iter: I) {
+        BTreeSet::extend(self, iter);
+    }
+}
+
+impl<'a, T> IntoIterator for &'a BTreeSet<T> {
+    type Item = &'a T;
+    type IntoIter = core::slice::Iter<'a, T>;
+    fn into_iter(self) -> Self::IntoIter {
+        self.items.iter()
+    }
+}
+
+impl<T> IntoIterator for BTreeSet<T> {
+    type Item = T;
+    type IntoIter = std::vec::IntoIter<T>;
+    fn into_iter(self) -> Self::IntoIter {
+        self.items.into_iter()
+    }
+}
